@@ -407,6 +407,12 @@ package jsonpatch
 //@   ensures[C18] nothing-with-error: err != nil ==> result.0 == nil
 
 //@ func (Patch).ApplyIndent
+//@   callsite[C18] add#1 add-operations-are-applied-by-add-in-patch-order: rOpKind(op) == "add" && arg_op == op && op == p[rangeindex + 1]
+//@   callsite[C18] remove#1 remove-operations-are-applied-by-remove-in-patch-order: rOpKind(op) == "remove" && arg_op == op && op == p[rangeindex + 1]
+//@   callsite[C18] replace#1 replace-operations-are-applied-by-replace-in-patch-order: rOpKind(op) == "replace" && arg_op == op && op == p[rangeindex + 1]
+//@   callsite[C18] move#1 move-operations-are-applied-by-move-in-patch-order: rOpKind(op) == "move" && arg_op == op && op == p[rangeindex + 1]
+//@   callsite[C18] test#1 test-operations-are-applied-by-test-in-patch-order: rOpKind(op) == "test" && arg_op == op && op == p[rangeindex + 1]
+//@   callsite[C18] copy#1 copy-operations-are-applied-by-copy-in-patch-order: rOpKind(op) == "copy" && arg_op == op && op == p[rangeindex + 1]
 //@   modifies region(lazyNode.which), region(lazyNode.doc), region(lazyNode.ary), region(lazyNode.raw), region(elem *lazyNode), region(map map[string]*lazyNode), region(cell int64), region(cell container), region(cell any), ghost(BufContent)
 //@   requires patch: rPatchOK(p)
 //@   ensures[C18] nothing-with-error: err != nil ==> result.0 == nil
